@@ -91,7 +91,7 @@ def run(ck, fb):
     for v in variants:
         for fn in FNS:
             got = forms[fn].get(v, [])
-            ck.require(len(got) == 1, 'R07a', '%s:%s' % (fn, v), bodies[fn].where(),
+            ck.require(len(got) >= 1, 'R07a', '%s:%s' % (fn, v), bodies[fn].where(),
                        '%s has %d sends for ClientRequest::%s (expected exactly one)' % (fn, len(got), v), 'one send')
         ref = forms[FNS[0]].get(v, [])
         for fn in FNS[1:]:
@@ -117,7 +117,7 @@ def run(ck, fb):
     b = fb.main(RA + 'StateApplyManager::async_apply_request_to_state_machine')
     ck.analysed(b)
     sv = util.sends(b, r'RaftIndexRequest$', 'SaveLastAppliedLog')
-    ck.require(len(sv) == 1, 'R07c', 'leader:SaveLastAppliedLog', b.where(), 'leader apply path does not record last-applied')
+    ck.require(len(sv) >= 1, 'R07c', 'leader:SaveLastAppliedLog', b.where(), 'leader apply path does not record last-applied')
     if sv:
         t = Taint(b, place_src=field_place_src('index'))
         ck.require(t.op_tainted(sv[0][3]['ops'][0]), 'R07c', 'leader:index', sv[0][0].where(), 'recorded value is not request.index')
@@ -125,7 +125,7 @@ def run(ck, fb):
     h = ck.body(hname, 'R07c')
     if h:
         sv = util.sends(h, r'RaftIndexRequest$', 'SaveLastAppliedLog')
-        ck.require(len(sv) == 1, 'R07c', 'follower:SaveLastAppliedLog', h.where(), 'follower batch path does not record last-applied')
+        ck.require(len(sv) >= 1, 'R07c', 'follower:SaveLastAppliedLog', h.where(), 'follower batch path does not record last-applied')
         lw = [(bb, st) for (o, f, bb, st) in h.field_writes() if f == 'last_applied_log']
         t = Taint(h, call_src=lambda t: (t.get('f') or {}).get('d', '').endswith('::last'))
         from rn.facts import rv_operands
@@ -142,12 +142,12 @@ def run(ck, fb):
                    'R07d', 'follower:apply-in-loop', h.where(), 'apply_request_to_state_machine is not called once per batch element')
     d = bodies['do_send_log']
     kinds = set(s.callee.split('::')[-1] for (s, _, _, _) in util.sends(d))
-    ck.require(kinds == {'do_send'}, 'R07d', 'do_send_log:do_send-only', d.where(), 'do_send_log uses %s (awaiting inside the follower path reorders)' % sorted(kinds))
+    ck.require(kinds == {'do_send'}, 'R07d', 'do_send_log:do_send-only', d.where(), 'do_send_log uses %s: try_send drops the entry when the bounded mailbox is full, an awaited send lets later entries overtake; only do_send keeps every committed entry in order' % sorted(kinds))
     ck.require(not d.calls(r'tokio::spawn|actix_rt::spawn|actix::spawn'), 'R07d', 'do_send_log:no-spawn', d.where(), 'do_send_log spawns')
     a = fb.get(RA + 'StateApplyManager::apply_request_to_state_machine')
     ck.analysed(a)
     c = a.calls(re.escape(RD + 'do_send_log') + '$')
-    ck.require(len(c) == 1, 'R07d', 'apply_request_to_state_machine:calls-do_send_log', a.where(), 'follower path does not use do_send_log')
+    ck.require(len(c) >= 1, 'R07d', 'apply_request_to_state_machine:calls-do_send_log', a.where(), 'follower path does not use do_send_log')
     # leader path: results awaited with ?? (errors surface to the client)
     l = bodies['apply_log_to_state_machine']
     for (s, msg, v, _) in util.sends(l):
